@@ -316,6 +316,12 @@ func c35Count(ctx *ev.Ctx, e *eng, ch *c35Chain, k string, sr stepRes, cons map[
 		}
 		ch.reg = scRec{}
 		ch.quit, ch.quitConsumed, ch.quitStale = false, true, false
+		// whether the removal also drops a still pending update request of the removed chain is not settled by the
+		// statement: both behaviours are accepted, the model follows the contract
+		if ch.upd.Present && !e.scUpdate(id).Present {
+			e.label("observed:pending-update-dropped-with-removed-chain")
+			ch.upd = scRec{}
+		}
 	}
 }
 
